@@ -240,7 +240,7 @@ Proof.
         unfold c09_tpos_classes. apply in_flat_map. exists (form, i). split; [exact Hid|]. cbn [snd fst]. rewrite Hlk. left. reflexivity. }
       unfold c09_type_site_class in Hc.
       destruct (c09_renamed_away (c9e_id e)) eqn:Era; [|apply c09_pick_eq; right; exact Era].
-      destruct (c09_which_eqb (c09_def_which Go (c9e_kind e)) (c09_type_ref_which form (c9t_pos tp))) eqn:Ew; [|cbn in Hc; destruct form, (c9t_pos tp); discriminate].
+      destruct (c09_which_eqb (c09_def_which Go (c9e_kind e)) (c09_type_ref_which form (c9t_pos tp))) eqn:Ew; [|cbn [andb negb] in Hc; discriminate].
       apply c09_pick_eq. left. destruct (c09_def_which Go (c9e_kind e)), (c09_type_ref_which form (c9t_pos tp)); try discriminate; reflexivity. }
     rewrite Hn, Hdn, Hw. unfold c09_go_rw. destruct (c09_go_rewritten_pos (c9t_pos tp)) eqn:Erw; [reflexivity|].
     symmetry. apply c09_changes_false.
@@ -577,7 +577,7 @@ Proof.
   apply c09_mmapM_Forall2 in E. rewrite Hfs in E. destruct (c09_Forall2_in_r _ _ _ _ E Hm) as (f' & Hf' & sc & sd & Em).
   apply in_map_iff in Hf' as (f & <- & Hf). destruct (Hmk f Hf) as (Htp & Hpos & Hty & Hown).
   rewrite <- Hpos in Hr. eapply (c09_go_type_refs_shape acrs pd Hdom (mk f)); [exact Htp| |exact Hown|exact Hr].
-  apply (go_member_names_acr (mk f) (sgenerics rs) (check_field [] rn [] f) sc m sd Htp Hpos); [|exact Em]. unfold c09_recon_type. rewrite Hpos, Hty. reflexivity.
+  apply (go_member_names_acr (mk f) (sgenerics rs) (check_field [] rn [] f) sc m sd Htp Hpos); [|exact Em]. unfold c09_recon_type. rewrite Hty. reflexivity.
 Qed.
 
 Lemma go_has_def_acr g d en : In d g -> c09_is_def d = true -> d_name d = dn en -> ghas_def g en.
@@ -744,7 +744,7 @@ Proof.
         destruct (Hanon' fs1 vsh1 Hv1) as (d0 & sa & sb & Hd0 & Ec). destruct (Hinner fs1 vsh1 d0 sa sb Hv1 Ec) as (d1 & Ho & A & B & C).
         apply (go_has_def_acr _ d1); [apply Hg; left; exists d0; split; [exact Hd0|rewrite Ho; left; reflexivity]|exact B|]. rewrite A.
         unfold c09_ent_inner. rewrite Ei0, Eg0. reflexivity.
-  - (* const: not a definition; its type is neither reconciled nor converted *)
+  - (* const: not a definition; its type is reconciled but not converted *)
     c09_bind Hd ty s3 E. c09_ret Hd. split; [|exact I].
     cbn [flat_map go_obs app]. intros d [<-|[]]. split; [cbn; discriminate|].
     intros r Hr. unfold c09_decl_refs in Hr. cbn [d_kind d_name d_type] in Hr.
